@@ -62,6 +62,7 @@ def dens_int(cr):
 def drive_p1(rec):
     import numpy as np
     n, u = rec["n"], rec["u"]
+    xtal.other_structures_loaded_earlier()
     cr = xtal.build_crystal(rec)
     t = {"k": "p1", "n": n, "gram": rec["gram"], "asym": [{"z": s["z"], "p": s["p"]} for s in rec["asym"]],
          "ops": [int(s.integer_code) for s in cr.space_group.symmetry_operations], "size": rec["size"], "call": rec["call"],
